@@ -70,6 +70,7 @@ type world struct {
 	confirmed []coin.Transaction
 	pool      []coin.Transaction
 	uxOf      map[cipher.SHA256]coin.UxOut
+	secOf     map[cipher.Address]cipher.SecKey // raw keys and wallet addresses the harness can sign for
 }
 
 var (
@@ -107,7 +108,7 @@ func newWorld() *world {
 	must(os.MkdirAll(filepath.Join(dir, "wallets"), 0o700), "mkdir")
 	w := &world{dir: dir, now: genesisT, sym: map[string]string{}, keyOf: map[cipher.Address]int{},
 		created: map[cipher.SHA256]cipher.Address{}, spent: map[cipher.SHA256]bool{}, inPool: map[cipher.SHA256]bool{},
-		txSeq: map[cipher.SHA256]uint64{}, uxOf: map[cipher.SHA256]coin.UxOut{}}
+		txSeq: map[cipher.SHA256]uint64{}, uxOf: map[cipher.SHA256]coin.UxOut{}, secOf: map[cipher.Address]cipher.SecKey{}}
 	pub, sec := cipher.MustGenerateDeterministicKeyPair([]byte("c28-publisher"))
 	w.pubSec = sec
 	for i := 0; i < nKeys; i++ {
@@ -116,6 +117,7 @@ func newWorld() *world {
 		w.secs = append(w.secs, s)
 		w.addrs = append(w.addrs, a)
 		w.keyOf[a] = i
+		w.secOf[a] = s
 		w.sym["a"+strconv.Itoa(i)] = a.String()
 		w.sym["sk"+strconv.Itoa(i)] = s.Hex()
 	}
@@ -137,6 +139,21 @@ func newWorld() *world {
 		w.sym["wid"+strconv.Itoa(i)] = wl.Filename()
 		for j, a := range as {
 			w.sym["w"+strconv.Itoa(i)+"a"+strconv.Itoa(j)] = a.String()
+		}
+		// secret keys of the wallet's addresses (the harness plays the wallet's owner when it needs
+		// independently signed spends of wallet outputs, e.g. conflicting pool transactions)
+		if es, err := wl.GetEntries(); err == nil {
+			for _, e := range es {
+				if e.Secret != (cipher.SecKey{}) {
+					w.secOf[e.SkycoinAddress()] = e.Secret
+				}
+			}
+		}
+		if o.Type == wallet.WalletTypeDeterministic && o.Encrypt {
+			_, secs := cipher.MustGenerateDeterministicKeyPairsSeed([]byte(o.Seed), int(o.GenerateN))
+			for _, sk := range secs {
+				w.secOf[cipher.MustAddressFromSecKey(sk)] = sk
+			}
 		}
 	}
 	mk(0, "c28_w0.wlt", wallet.Options{Type: wallet.WalletTypeDeterministic, Seed: "c28 wallet zero seed", Label: "w0", GenerateN: 3,
@@ -300,6 +317,29 @@ func (w *world) mkTxn(ux coin.UxOut, k int, to []cipher.Address, coins []uint64)
 	return txn
 }
 
+// owners whose largest unspent output gets conflicting spends: raw keys and wallet addresses
+var dsOwners = []struct{ name, addr, wid string }{{"k3", "a3", ""}, {"k4", "a4", ""}, {"w0", "w0a0", "{wid0}"}, {"w1", "w1a0", "{wid1}"}, {"w2", "w2a0", "{wid2}"}}
+
+// mkTxnSec is mkTxn for an arbitrary owner key and change address
+func (w *world) mkTxnSec(ux coin.UxOut, sk cipher.SecKey, change cipher.Address, to []cipher.Address, coins []uint64) coin.Transaction {
+	hours, err := ux.CoinHours(w.now + 600)
+	must(err, "CoinHours")
+	var txn coin.Transaction
+	must(txn.PushInput(ux.Hash()), "PushInput")
+	var sum uint64
+	per := hours / 4 / uint64(len(to)+1)
+	for i, a := range to {
+		must(txn.PushOutput(a, coins[i], per), "PushOutput")
+		sum += coins[i]
+	}
+	if ux.Body.Coins > sum {
+		must(txn.PushOutput(change, ux.Body.Coins-sum, per), "PushOutput")
+	}
+	txn.SignInputs([]cipher.SecKey{sk})
+	must(txn.UpdateHeader(), "UpdateHeader")
+	return txn
+}
+
 func (w *world) pay(k int, to []cipher.Address, coins []uint64) {
 	ux := w.spendable(k)
 	if ux == nil {
@@ -387,6 +427,30 @@ func (w *world) symbols() {
 	for _, k := range txnKinds {
 		txn, _ := w.txnOfKind(k)
 		w.sym["raw."+k] = hex.EncodeToString(mustSerialize(txn))
+	}
+	// conflicting spends: three different, individually valid transactions that spend the SAME unspent output
+	for _, o := range dsOwners {
+		uxs := w.ownedUnspent(o.addr)
+		if len(uxs) == 0 {
+			panic("harness: no unspent output for double-spend owner " + o.name)
+		}
+		ux := uxs[0]
+		for _, u := range uxs {
+			if u.Body.Coins > ux.Body.Coins {
+				ux = u
+			}
+		}
+		sk, ok := w.secOf[ux.Body.Address]
+		if !ok {
+			panic("harness: no secret key for " + o.name)
+		}
+		w.sym["dsux."+o.name] = ux.Hash().Hex()
+		for i, v := range []string{"a", "b", "c"} {
+			to := cipher.MustDecodeBase58Address(w.sym[[]string{"a1", "a5", "w0a2"}[i]])
+			t := w.mkTxnSec(ux, sk, ux.Body.Address, []cipher.Address{to}, []uint64{uint64(i+1) * 1e6})
+			w.sym["raw.ds."+o.name+"."+v] = hex.EncodeToString(mustSerialize(t))
+			w.sym["dstx."+o.name+"."+v] = t.Hash().Hex()
+		}
 	}
 	// structurally inconsistent but decodable transactions derived from valid ones over real unspents
 	for _, b := range structBases {
